@@ -64,6 +64,10 @@ TYPES = [
     dict(rust='ToQuads', file=S + 'cubicbez.rs', coq='(CubicBez T * Z * Z)%type', destruct=False,
          ctor='(fun tr_c tr_i tr_n => (tr_c, tr_i, tr_n))',
          fields=[['c', '(fun tr_s => fst (fst tr_s))'], ['i', '(fun tr_s => snd (fst tr_s))'], ['n', '(fun tr_s => snd tr_s)']]),
+    # Segments<I>: the remaining elements and the (start, last) pair; no model record (the model folds seg_step)
+    dict(rust='Segments', file=S + 'bezpath.rs', coq='(list (PathEl T) * option (Point T * Point T))%type', destruct=False,
+         ctor='(fun tr_e tr_s => (tr_e, tr_s))',
+         fields=[['elements', '(fun tr_s => fst tr_s)', 'Vec<PathEl>'], ['start_last', '(fun tr_s => snd tr_s)']]),
     dict(rust='TranslateScale', file=S + 'translate_scale.rs', coq='TranslateScale T', ctor='mkTS',
          fields=[['translation', 'ts_translation'], ['scale', 'ts_scale']]),
 ]
@@ -402,6 +406,7 @@ F('stroke.rs', 'StrokeCtx', 'finish_closed', 'sk_finish_closed', SK + 'finish_cl
 
 
 # ---------------------------------------------------------------- the dash iterator (C13)
+DI2 = "DashIterator<'_,T>"
 DS = 'KV.Dash.'
 DI = "DashIterator<'a,T>"
 F('stroke.rs', None, 'DASH_ACCURACY', 'DASH_ACCURACY', const=True)
@@ -411,7 +416,10 @@ F('bezpath.rs', 'PathSeg', 'inv_arclen', 'seg_inv_arclen', trait='ParamCurveArcl
 F('stroke.rs', DI, 'get_input', 'dash_get_input', DS + 'get_input', extern=True, call='KV.Dash.get_input arclen_ KV.Dash.fixes_all init_ $0')
 F('stroke.rs', DI, 'reset_phase', 'dash_reset_phase', DS + 'reset_phase', model_app='KV.Dash.reset_phase init_ $0')
 F('stroke.rs', DI, 'handle_closepath', 'dash_handle_closepath', DS + 'handle_closepath', model_app='KV.Dash.handle_closepath KV.Dash.fixes_all init_ $0')
-F('stroke.rs', DI, 'step', 'dash_step', DS + 'step', bridge='Dash_bridge', model_app='KV.Dash.step arclen_ inv_arclen_ KV.Dash.fixes_all dashes_ init_ $0')
+# one iteration of the `loop` in `next` = the model's [tick] (the fuel of [run] is the model's business)
+F('stroke.rs', DI2, 'next', 'dash_next_body', DS + 'tick', trait='Iterator', loop_body=True, bridge='Dash_bridge', via='simulation',
+  stmt='match KV.Dash.tick arclen_ inv_arclen_ KV.Dash.fixes_all dashes_ init_ $0 with KV.Dash.TDone => fst $G = Some None | KV.Dash.TCont tr_s => $G = (None, tr_s) | KV.Dash.TEmit tr_e tr_s => $G = (Some (Some tr_e), tr_s) end')
+F('stroke.rs', DI, 'step', 'dash_step', DS + 'step', bridge='Dash_bridge', call='KV.Dash.step arclen_ inv_arclen_ KV.Dash.fixes_all dashes_ init_ $0', model_app='KV.Dash.step arclen_ inv_arclen_ KV.Dash.fixes_all dashes_ init_ $0')
 
 
 # ---------------------------------------------------------------- loops: extrema ranges, bounding boxes (C08)
@@ -439,6 +447,17 @@ F('cubicbez.rs', 'CubicBez', 'to_quads', 'cubic_to_quads', TQ + 'to_quads_count'
   stmt='$G = ($0, 0%Z, KV.ToQuads.to_quads_count $0 $1)')
 F('cubicbez.rs', 'ToQuads', 'next', 'to_quads_next', TQ + 'to_quads_piece', trait='Iterator',
   stmt='$G = (if Z.eqb (snd (fst $0)) (snd $0) then (None, $0) else (Some (KV.ToQuads.to_quads_piece (fst (fst $0)) (snd $0) (snd (fst $0))), (fst (fst $0), Z.add (snd (fst $0)) 1, snd $0)))')
+# ---------------------------------------------------------------- Segments::next by simulation (C07 and every path property)
+F('bezpath.rs', 'Segments<I>', 'next', 'segments_next', P + 'seg_step', trait='Iterator', bridge='Path_bridge', via='simulation',
+  stmt='match KVBridge.Path_bridge.next_spec (snd $0) (fst $0) with Some tr_r => $G = tr_r | None => True end')
+F('bezpath.rs', 'BezPath', 'get_seg', 'get_seg', PO + 'get_seg_req', usize_as_nat=True, bridge='PathOps_bridge')
+F('bezpath.rs', None, 'reverse_subpath', 'reverse_subpath', PO + 'reverse_subpath', usize_as_nat=True, bridge='PathOps_bridge', via='simulation',
+  stmt='match KV.PathOps.reverse_subpath $0 $1 $2 with Some tr_r => $G = tr_r | None => True end',
+  call='match KV.PathOps.reverse_subpath $0 $1 $2 with Some tr_r => tr_r | None => $2 end')
+F('bezpath.rs', 'BezPath', 'reverse_subpaths', 'reverse_subpaths', PO + 'reverse_subpaths', usize_as_nat=True, bridge='PathOps_bridge', via='simulation',
+  stmt='match KV.PathOps.reverse_subpaths $0 with Some tr_r => $G = tr_r | None => True end')
+F('bezpath.rs', 'BezPath', 'from_vec', 'bezpath_from_vec')
+F('svg.rs', 'BezPath', 'from_path_segments', 'from_path_segments', PO + 'from_path_segments', bridge='PathOps_bridge')
 # ---------------------------------------------------------------- winding (C01)
 F('bezpath.rs', 'PathSeg', 'winding_inner', 'winding_inner', WD + 'winding_inner', bridge='Winding_bridge')
 F('bezpath.rs', 'PathSeg', 'winding', 'seg_winding', WD + 'seg_winding', bridge='Winding_bridge')
@@ -536,6 +555,7 @@ def main():
         imports=IMPORTS,
         derived_eq={'Point': 'KV.Geom.pt_eqb'},
         consts={'PI': 'fpi', 'sort_by_partial_cmp': 'KV.Extrema.sort_asc'},
+        defaults={'Point': '(mkPoint f0 f0)', 'Rect': '(mkRect f0 f0 f0 f0)'},
         panic_defaults={'f64': 'f0', 'Point': '(mkPoint f0 f0)', 'PathEl': '(MoveTo (mkPoint f0 f0))'},
         types=TYPES,
         functions=FUNS,
